@@ -7,7 +7,8 @@ from check import Prop
 class C40(Prop):
     pid = "C40"
     check_mod = "C40"
-    drivers = [dict(pkg="internal/core", test="TestVerifC40", timeout=900)]
+    drivers = [dict(pkg="internal/core", test="TestVerifC40", timeout=900),
+               dict(pkg="internal/stream", test="TestVerifC40Stream", timeout=600)]
     n_quick = 32
     n_thorough = 320
     shard = 40
@@ -32,7 +33,19 @@ class C40(Prop):
             "apiAddress, Core.Close(), a configuration file that does not load, an edit that keeps the API server; the "
             "parked requests are released one by one in random order; program points of Core.run, of the api.Close "
             "goroutine and of every handler from goroutine dumps (attributed by receiver pointer), HTTP status of every "
-            "request; 10 s watchdog per segment). Non-trivial = every case; distinct = distinct descriptions")
+            "request; 10 s watchdog per segment). Stream level (2n more cases on REAL stream.Streams, plain and always-available, "
+            "no hook: the driver or an observer goroutine holds Stream.mutex; sync.RWMutex's waiter counts tell when a call "
+            "waits for it; s.readers, the callback owners of every sf.onDatas, hasReaders closed?, s.subStream, s.rtspStream are "
+            "read under the mutex). Families: chain (half of the cases, GOMAXPROCS(1): 2-4 calls that need the write lock - "
+            "AddReader of fresh readers on a stream that never had / already had a reader, RemoveReader, sub-stream switch, "
+            "RTSPStream - queued behind the driver's lock, each followed by an observer; sync.Mutex is driven into starvation "
+            "mode so that every Unlock hands mutex and processor to the next in the queue: each observer reads the state at "
+            "the end of the previous call's critical section, before that call executes anything after its Unlock: two first "
+            "joiners, joiner vs remover, joiner vs switch; goroutines in WaitForReaders); race (write lock held, 2-6 calls "
+            "of every kind incl. WriteUnit of the current / a replaced sub-stream, OutboundBytes, WaitForReaders, Close: all "
+            "wait except Close, nothing changes, then they race on all processors and must all return); rhold (read lock "
+            "held: read-lock calls return, a writer waits, readers after it wait behind it). 8 s watchdog. "
+            "Non-trivial = every case; distinct = distinct descriptions")
     trusted_base = ["Coq 8.16.1 kernel + VM (vm_compute for cases and for the _refuted witness)",
                     "in-package driver zz_verif_c40_test.go: hooks on the real goroutines, classification of goroutine "
                     "dumps (runtime.Stack) by frame names of internal/core (pathManager.run, path.run/runInner, removePath, "
@@ -44,7 +57,14 @@ class C40(Prop):
                     "httpp.dumpRequest / Core.APIConfig* and the receiver pointers of Core and of the handler tracker)",
                     "model Model/C40_CoreLoop.v hand-written from core.go (run, reloadConf, closeResources, closeAPI, "
                     "APIConfig*), api.Close, httpp.Server.Close / handlerTracker, confwatcher; tied by the Core-level "
-                    "forced schedules, theorem C40_core_check_settled_sound for the enabledness test"]
+                    "forced schedules, theorem C40_core_check_settled_sound for the enabledness test",
+                    "in-package driver zz_verif_c40stream_test.go (reads sync.RWMutex's rw.w state word and readerCount through "
+                    "reflect/unsafe, read-only; relies on sync.Mutex's starvation-mode hand-over (runtime semrelease with "
+                    "handoff = goyield to the first waiter) to place its observers - if the runtime did not hand over, the "
+                    "observers would only see later states: weaker, never a false alarm)",
+                    "model Model/C40_StreamLock.v hand-written from stream.go / sub_stream.go (one program per public "
+                    "operation, critical sections as the code delimits them), tied by the stream-level forced schedules, "
+                    "theorems C40_stream_check_settled_sound / C40_stream_obs_consistent for the check itself"]
     assumptions = ["NOT PROVED: data-race freedom (Go memory model) — outside what a Gallina model can express; the thorough "
                    "tier runs the soak under `go test -race` as supporting TESTING evidence only",
                    "Go channel semantics: unbuffered send/receive is a rendezvous; a select with a ready branch proceeds; "
@@ -57,6 +77,12 @@ class C40(Prop):
                    "Core level: http.Server.Shutdown returns (it has a 2 s time-out); reading a request body returns (the "
                    "client sends it or readTimeout expires); createResources / the Close() of the other servers return; "
                    "requests reach Core.APIConfig* only through the API server (the handler tracker counts them)",
+                   "Stream level: callers use a Reader for one AddReader and at most one RemoveReader after it has returned, "
+                   "Close() is called once; reader callbacks return (r.stop() waits for the reader's goroutine); what the "
+                   "fan-out delivers is C17's subject, not modelled here; Close() reads rtspStream / rtspsStream WITHOUT "
+                   "Stream.mutex while RTSPStream() writes them under it (RTSP conn goroutine vs path goroutine): part of the "
+                   "data-race half that is not decided; outDescMutex / timeMutex (leaf locks taken under Stream.mutex) are "
+                   "not modelled",
                    "not modelled: APIPathsList's loop over paths, the static-source handler's own goroutine, HLS muxers "
                    "calling back into the path manager; the two models are separate (the path manager's shutdown inside "
                    "Core.closeResources is the close() of the first model)"]
@@ -76,7 +102,17 @@ class C40(Prop):
              "the API server, api.Close (Shutdown, then the handler tracker's wait without time-out), any number of API "
              "handlers and the watcher: progress, finiteness of every schedule, every request answered or refused, shutdown "
              "terminates; the code before fix 90f555e is refuted (Core.run inside api.Close() waiting for a handler that waits "
-             "for Core.run: a genuine deadlock, reproduced on the real code and fixed in /repo).",
+             "for Core.run: a genuine deadlock, reproduced on the real code and fixed in /repo). Stream level (third model): "
+             "AddReader, RemoveReader, SubStream.WriteUnit, sub-stream switch, WaitForReaders, OutboundBytes, RTSPStream, "
+             "Close and any other user of Stream.mutex as straight-line programs over the guarded state, critical sections "
+             "delimited as in stream.go, sync.RWMutex with writer preference, hasReaders as a channel that panics on a second "
+             "close; any number of concurrent calls, all interleavings: no panic state (double close, guarded field touched "
+             "without the mutex, unlock of an unlocked mutex) is reachable, mutual exclusion, the hasReaders handshake (a "
+             "registered reader visible outside a section implies hasReaders closed), every call returns whatever the "
+             "scheduler does (only WaitForReaders without any AddReader stays), every schedule is finite; refuted: AddReader "
+             "that unlocks before its check-then-close (two first joiners close twice; an observer sees reader + open "
+             "channel), RemoveReader that unlocks before its deletes, AddReader under RLock, WriteUnit without RLock. Tied to "
+             "the code by observers placed between the calls through the real mutex.",
         note="Data-race freedom is NOT decided by proof (it is a property of the Go memory model that an executable Gallina "
              "model cannot exhibit); a `go test -race` soak of the driver runs in the thorough tier as supporting testing "
              "evidence only. External calls made from the loops are assumed to return.",
@@ -84,8 +120,39 @@ class C40(Prop):
                   "steps, case analysis for progress, nat-valued measure) + forced-schedule correspondence via vm_compute + "
                   "watchdog soak")
 
+    def base_drivers(self, ctx, n, seed, replay=None):
+        """Prop.run_drivers, with the drivers side by side (separate processes and overlay directories)."""
+        from concurrent.futures import ThreadPoolExecutor
+
+        def one(kd):
+            k, d = kd
+            outp = os.path.join(ctx.workdir, "driver_%d_%d.jsonl" % (k, n))
+            if os.path.exists(outp):
+                os.remove(outp)
+            env = {"VERIF_SEED": seed, "VERIF_N": n, "VERIF_OUT": outp, "VERIF_TIER": ctx.tier, "VERIF_WORK": ctx.workdir}
+            env.update(d.get("env", {}))
+            if replay:
+                env["VERIF_REPLAY"] = replay
+            rc, out = vlib.run_driver(os.path.join(ctx.workdir, "drv%d" % k), d["pkg"], d["test"], env,
+                                      timeout=d.get("timeout", 900))
+            return d, rc, out, vlib.read_jsonl(outp)
+
+        cases, summaries, errors = [], [], []
+        with ThreadPoolExecutor(max_workers=len(self.drivers)) as ex:
+            for d, rc, out, rows in ex.map(one, list(enumerate(self.drivers))):
+                for r in rows:
+                    if "summary" in r:
+                        summaries.append(r["summary"])
+                    else:
+                        r["driver"] = d["test"]
+                        r["id"] = len(cases)
+                        cases.append(r)
+                if rc != 0:
+                    errors.append("driver %s failed (rc=%d):\n%s" % (d["test"], rc, out[-6000:]))
+        return cases, summaries, errors
+
     def run_drivers(self, ctx, n, seed, replay=None):
-        cases, summaries, errors = Prop.run_drivers(self, ctx, n, seed, replay)
+        cases, summaries, errors = self.base_drivers(ctx, n, seed, replay)
         if ctx.tier == "thorough" and not replay:
             outp = os.path.join(ctx.workdir, "driver_race_%d.jsonl" % n)
             if os.path.exists(outp):
